@@ -76,7 +76,15 @@ int64_t nondet_int64_t(void);
 #define QV_SAME_OBJECT(a, b) __CPROVER_same_object((a), (b))
 #define QV_POINTER_OFFSET(p) __CPROVER_POINTER_OFFSET(p)
 #define QV_OBJECT_SIZE(p) __CPROVER_OBJECT_SIZE(p)
-#define QV_IS_FREED(p) (!__CPROVER_r_ok((p), 1))
+/* freed-ness of a pointer the harness remembered: r_ok on a dead object is exactly what is asked, so the
+ * pointer-primitive check is switched off for this one expression (harness code only) */
+static _Bool qv_is_freed(const void *p) {
+#pragma CPROVER check push
+#pragma CPROVER check disable "pointer-primitive"
+    return !__CPROVER_r_ok(p, 1);
+#pragma CPROVER check pop
+}
+#define QV_IS_FREED(p) qv_is_freed(p)
 #endif
 
 /* size caps: proof mode uses the large cap, witness/native the small one */
